@@ -68,7 +68,7 @@ theorem headerPhases_vendor (f : AngFmt) (ps : List PhaseInfo) (xs : List PhaseX
     (h : List.Forall₂ (BlockOK f) ps xs) (hs : (ps.map (·.id)).Pairwise (· < ·))
     (pre post : List HLine) (hpre : ∀ l ∈ pre, neutral l = true) (hpost : ∀ l ∈ post, neutral l = true) :
     ∃ H, headerPhases angReader (pre ++ vendorBlocks f ps xs ++ post) = some H ∧
-      H.length = ps.length ∧ rekey (ps.map (·.id)) H = ps := by
+      H.length = ps.length ∧ rekey (ps.map (·.id)) H = ps ∧ (∀ p ∈ H, p.id ≠ -1) := by
   obtain ⟨a1, a2, a3, a4, a5⟩ := hdr_neutral pre hpre
   obtain ⟨c1, c2, c3, c4, c5⟩ := hdr_neutral post hpost
   obtain ⟨b1, b2, b3, b4, b5⟩ := hdr_vendorBlocks f ps xs h
@@ -105,7 +105,7 @@ theorem headerPhases_vendor (f : AngFmt) (ps : List PhaseInfo) (xs : List PhaseX
       rw [this, phaseIds_self]
   have hz := zipPhases_vendor (if f = AngFmt.astar then List.range ps.length else ps.map (·.id.toNat)) f ps xs h
     (by by_cases hf : f = AngFmt.astar <;> simp [hf])
-  refine ⟨sortById (rekey ((if f = AngFmt.astar then List.range ps.length else ps.map (·.id.toNat)).map Int.ofNat) ps), ?_, ?_, ?_⟩
+  refine ⟨sortById (rekey ((if f = AngFmt.astar then List.range ps.length else ps.map (·.id.toNat)).map Int.ofNat) ps), ?_, ?_, ?_, ?_⟩
   · unfold headerPhases
     simp only [hdrIds_append, hdrNames_append, hdrFormulas_append, hdrSyms_append, hdrLattices_append,
       a1, a2, a3, a4, a5, b1, b2, b3, b4, b5, c1, c2, c3, c4, c5, List.nil_append, List.append_nil]
@@ -125,6 +125,16 @@ theorem headerPhases_vendor (f : AngFmt) (ps : List PhaseInfo) (xs : List PhaseX
   · exact rekey_len _ _ (by by_cases hf : f = AngFmt.astar <;> simp [hf])
   · rw [rekey_rekey _ _ _ (by by_cases hf : f = AngFmt.astar <;> simp [hf])
       (by by_cases hf : f = AngFmt.astar <;> simp [hf]), rekey_self]
+  · intro p hp
+    have hids := rekey_length ((if f = AngFmt.astar then List.range ps.length else ps.map (·.id.toNat)).map Int.ofNat)
+      ps (by by_cases hf : f = AngFmt.astar <;> simp [hf])
+    have hmem : p.id ∈ (if f = AngFmt.astar then List.range ps.length else ps.map (·.id.toNat)).map Int.ofNat := by
+      rw [← hids]; exact List.mem_map_of_mem hp
+    obtain ⟨i, _, hi⟩ := List.mem_map.1 hmem
+    intro hneg
+    rw [← hi] at hneg
+    have : (0 : Int) ≤ Int.ofNat i := Int.natCast_nonneg i
+    omega
 
 /-- the header `encodeAng` writes -/
 def vendorHeader (f : AngFmt) (ps : List PhaseInfo) (xs : List PhaseX) : List HLine :=
@@ -221,7 +231,7 @@ theorem ang_vendor_main (f : AngFmt) (x : AngExtras) (m : PMap) (ni : Bool) (hwf
   obtain ⟨hspec, hfilter, hprops, hpnodup, hnodup, hni, hunit⟩ := fmt_facts f
   have hlen := forall₂_len hwf.blocks
   have hneut := vendor_header_neutral f
-  obtain ⟨H, hH, hHlen, hHrekey⟩ := headerPhases_vendor f (realPhases m) x.phases hwf.blocks hwf.sorted
+  obtain ⟨H, hH, hHlen, hHrekey, hHne⟩ := headerPhases_vendor f (realPhases m) x.phases hwf.blocks hwf.sorted
     _ _ hneut.1 hneut.2
   have hdet := detect_vendor f (realPhases m) x.phases hwf.nonempty hlen
   have hvc : vendorColumns angReader (vendorHeader f (realPhases m) x.phases) (fmtColumns f).length
@@ -293,7 +303,7 @@ theorem ang_vendor_main (f : AngFmt) (x : AngExtras) (m : PMap) (ni : Bool) (hwf
       rw [hwf.ids a]
       cases ni <;> simp
   have hrec := reconcile_rekey (m.pts.map (·.phaseId)) H ((realPhases m).map (·.id)) ni hu hpos
-    (by simp [hHlen])
+    (by simp [hHlen]) hHne
   rw [hHrekey, ← hwf.phases] at hrec
   -- assemble
   have hH' : headerPhases angReader (vendorHeader f (realPhases m) x.phases) = some H := hH
